@@ -69,9 +69,14 @@ func ruleCommitOrder(c *Ctx) {
 		okL, tr := heldAt(P, s.Instr.(ssa.Instruction), lock, true)
 		c.Check(okL, c.Prop+"/locking", "tryCommitPatch in "+fnName(s.Caller), "called with the manager's write lock held", P.instrPos(s.Instr), tr)
 		// the patch committed is the one begun in the same critical section
-		begin := F(P.Method(plc, "RuleManager", "beginPatch"))
+		// (through the manager's one-line wrapper, or the configuration's own beginPatch)
+		begin := F(P.Method(plc, "ruleConfig", "beginPatch"))
+		isBegin := resultOfCall(begin)
+		if w := P.methodOpt(plc, "RuleManager", "beginPatch"); w != nil {
+			isBegin = orPred(isBegin, resultOfCall(F(w)))
+		}
 		a := callArgs(s.Instr.Common())
-		c.Check(len(a) == 1 && derivesFrom(a[0], resultOfCall(begin), 3), c.Prop+"/locking", "patch committed in "+fnName(s.Caller), "is the patch begun in this critical section", P.instrPos(s.Instr), "")
+		c.Check(len(a) == 1 && derivesFrom(a[0], isBegin, 3), c.Prop+"/locking", "patch committed in "+fnName(s.Caller), "is the patch begun in this critical section", P.instrPos(s.Instr), "")
 	}
 	c.Floor(c.Prop+"/locking", 14, "commit sites (7 mutators × lock + patch provenance)")
 	for _, f := range []string{"ruleConfig", "ruleList", "initialized"} {
@@ -94,7 +99,34 @@ func ruleRuleConfigOwnership(c *Ctx) {
 					case "ruleConfig", "ruleConfigPatch":
 						okOwner = true
 					case "RuleManager":
-						okOwner = fn.Name() == "loadRules" || fn.Name() == "loadGroups"
+						isLoader := func(g *ssa.Function) bool {
+							return g != nil && (g.Name() == "loadRules" || g.Name() == "loadGroups") && g.Signature.Recv() != nil
+						}
+						okOwner = isLoader(fn)
+						if !okOwner {
+							// a per-record method split off a loader: used (called, or handed on as the callback) by the loaders only
+							sites, uses := P.CallersAll(fn)
+							used, onlyLoaders := false, true
+							for _, cs := range sites {
+								if P.isScaffold(cs.Caller) {
+									continue
+								}
+								used = true
+								if !isLoader(outer(cs.Caller)) {
+									onlyLoaders = false
+								}
+							}
+							for _, vu := range uses {
+								if P.isScaffold(vu.Parent()) {
+									continue
+								}
+								used = true
+								if !isLoader(outer(vu.Parent())) {
+									onlyLoaders = false
+								}
+							}
+							okOwner = used && onlyLoaders
+						}
 					}
 				}
 			}
